@@ -557,7 +557,7 @@ def special_args(rng, fq):
     if fq == 'Angle.set_ra':
         return rng.choice([[rng.uniform(0, 24)], [9, 14, 55.8], [[9.0, 14.0, 55.8]], [A(rng)]])
     if fq in ('Epoch.__init__', 'Epoch.set'):
-        return rng.choice([[rng.randint(1700, 2200), rng.randint(1, 12), rng.uniform(1, 28)], [rng.choice(JDE_B)], [E(rng)],
+        return rng.choice([_ymd(rng, 1700, 2200), [rng.choice(JDE_B)], [E(rng)],
                            [[2005, 6, 7.5]], [{'tuple': [1987, 6, 19.5]}], [2012, 7, 1, 0, 0, 0.0, {'kw': {'utc': True}}],
                            [{'date': [2003, 9, 14]}], [{'datetime': [2003, 9, 14, 12, 30, 1]}], [1991, 'Jul', 11.0],
                            [2016, 12, 31.5, {'kw': {'leap_seconds': 26.0}}], []])
@@ -582,9 +582,9 @@ def special_args(rng, fq):
         return ['<recv-root>']
     if fq in ('Coordinates.mean_obliquity', 'Coordinates.true_obliquity', 'Coordinates.nutation_longitude',
               'Coordinates.nutation_obliquity'):
-        return rng.choice([[E(rng)], [rng.randint(1800, 2100), rng.randint(1, 12), rng.uniform(1, 28)]])
+        return rng.choice([[E(rng)], _ymd(rng, 1800, 2100)])
     if fq == 'Epoch.check_input_date':
-        return rng.choice([[E(rng)], [rng.randint(1800, 2100), rng.randint(1, 12), rng.uniform(1, 28)]])
+        return rng.choice([[E(rng)], _ymd(rng, 1800, 2100)])
     if fq == 'Epoch.get_month':
         return [rng.choice([rng.randint(1, 12), 'Jan', 'march', 'DEC'])] + ([rng.random() < 0.5] if rng.random() < 0.5 else [])
     if fq == 'Epoch.rise_set':
@@ -650,7 +650,8 @@ def special_args(rng, fq):
         return ['<recv>', {'callable': 'x2'}, {'callable': 'x'}, {'callable': 'one'}]
     if fq == 'Epoch.get_doy':
         y = rng.choice([rng.randint(1600, 2200), rng.randint(-500, 1582), 1500, 1000, 4, 1582, 1583, 2000, 1900])
-        return [y, rng.randint(1, 12), rng.uniform(1, 28)]
+        m_ = rng.randint(1, 12)
+        return [y, m_, day_of(rng, y, m_)]
     if fq == 'Epoch.doy2date':
         return [rng.randint(1600, 2200), rng.uniform(1, 365)]
     if fq == 'Epoch.tt2ut':
@@ -658,7 +659,7 @@ def special_args(rng, fq):
     if fq == 'Epoch.leap_seconds':
         return [rng.randint(1960, 2030), rng.randint(1, 12)]
     if fq in ('Epoch.is_julian', 'Epoch.check_input_date_x'):
-        return [rng.randint(1500, 1700), rng.randint(1, 12), rng.randint(1, 28)]
+        return _ymd(rng, 1500, 1700, frac=False)
     if fq in ('Epoch.get_date', 'Epoch.get_full_date', 'Epoch.year', 'Epoch.tt2utc', 'Epoch.jde'):
         return ['<recv>']
     if fq in ('Epoch.__sub__',):
@@ -672,6 +673,34 @@ def special_args(rng, fq):
     if fq in ('Angle.__rdiv__', 'Angle.__rtruediv__', 'Angle.__rmod__'):
         return [{'recv': {'Angle': rng.uniform(0.5, 300.0)}}, rng.uniform(-50.0, 50.0)]
     return None
+
+
+_MLEN = [31, 28, 31, 30, 31, 30, 31, 31, 30, 31, 30, 31]
+
+
+def month_length(y, m):
+    """days of month m of year y in the calendar in force (Julian rule before 1583); independent of pymeeus"""
+    y = int(y)
+    leap = (y % 4 == 0) if y < 1583 else (y % 4 == 0 and (y % 100 != 0 or y % 400 == 0))
+    return 29 if (m == 2 and leap) else _MLEN[m - 1]
+
+
+def day_of(rng, y, m, frac=True):
+    """a day of that month: the last day (with or without a fraction) one time in three, so that every month end is
+    visited; days 5..14 of October 1582 do not exist"""
+    n = month_length(y, m)
+    d = n if rng.random() < 0.34 else rng.randint(1, n)
+    if (int(y), m) == (1582, 10) and 5 <= d <= 14:
+        d = 15
+    if frac and rng.random() < 0.6:
+        return d + rng.choice([0.0, 0.25, 0.5, rng.random() * 0.999])
+    return d
+
+
+def _ymd(rng, y0, y1, frac=True):
+    y, m = rng.randint(y0, y1), rng.randint(1, 12)
+    return [y, m, day_of(rng, y, m, frac)]
+
 
 
 def gen_args(rng, f, sig_info, full=False):
